@@ -369,10 +369,27 @@ func cryptoStub(in *Interp, fn *ssa.Function, pkg, name string) StubFn {
 				return Ptr{Obj: in.newObj(in.zero(et), "transcript")}
 			}
 		case "Bind":
-			return func(in *Interp, fn *ssa.Function, a []Val) Val { return IfaceV{} }
+			// the transcript is a deterministic function of what was bound to it, in order
+			return func(in *Interp, fn *ssa.Function, a []Val) Val {
+				if p, ok := a[0].(Ptr); ok && p.Obj != nil {
+					key := "|bind:" + fmt.Sprint(a[1]) + ":"
+					if sl, ok := a[2].(SliceV); ok {
+						for i := 0; i < sl.Len; i++ {
+							key += valKey(in.sliceGet(sl, i)) + ","
+						}
+					}
+					in.transcripts[p.Obj] += key
+				}
+				return IfaceV{}
+			}
 		case "ComputeChallenge":
 			return func(in *Interp, fn *ssa.Function, a []Val) Val {
-				return TupleV{in.freshBytes(32, "challenge"), IfaceV{}}
+				key := "?"
+				if p, ok := a[0].(Ptr); ok && p.Obj != nil {
+					in.transcripts[p.Obj] += "|challenge:" + fmt.Sprint(a[1])
+					key = in.transcripts[p.Obj]
+				}
+				return TupleV{in.bytesSlice(in.memoBytes(key, 32, "challenge")), IfaceV{}}
 			}
 		}
 	}
